@@ -4,6 +4,7 @@
 
 #pragma once
 
+#include <atomic>
 #include <mutex>
 #include <string_view>
 #include <vector>
@@ -31,6 +32,11 @@ public:
 
 private:
     static inline tree_instance storages_; // NOLINT
+
+    /**
+     * @brief serializes delete_storage calls, see delete_storage.
+     */
+    static inline std::atomic<bool> delete_lock_{false}; // NOLINT
 };
 
 } // namespace yakushima
